@@ -322,7 +322,7 @@ static int ex_lineno(char **num)
 }
 
 /* parse ex command addresses */
-static int ex_region(char *loc, int *beg, int *end)
+static int ex_region0(char *loc, int *beg, int *end)
 {
 	int naddr = 0;
 	if (!strcmp("%", loc)) {
@@ -331,6 +331,11 @@ static int ex_region(char *loc, int *beg, int *end)
 		return 0;
 	}
 	if (!*loc) {
+		if (xrow == -1) {	/* current line 0: the same as address 0 */
+			*beg = 0;
+			*end = 0;
+			return 0;
+		}
 		*beg = xrow;
 		*end = xrow == lbuf_len(xb) ? xrow : xrow + 1;
 		return xrow < 0 || xrow > lbuf_len(xb);
@@ -365,6 +370,15 @@ static int ex_region(char *loc, int *beg, int *end)
 	if (*end == *beg && *end)	/* 5,4: backwards by one line */
 		return 1;
 	return 0;
+}
+
+static int ex_region(char *loc, int *beg, int *end)
+{
+	int row = xrow;
+	int ret = ex_region0(loc, beg, end);
+	if (ret)		/* ';' may have moved the current line */
+		xrow = row;
+	return ret;
 }
 
 static char *lbuf_save(struct lbuf *lb, int beg, int end, char *path, int force, long ts)
